@@ -568,9 +568,9 @@ FX_ONE = 1 << 384
 
 def scalar(x, carrier) -> float:
     """A scalar as printed by Coq: fixed point = integer count of 2^-384; bigQ = int or Fraction."""
-    if carrier == "CFX":
-        return float(Fraction(x, FX_ONE))
-    return float(x)
+    if len(x) == 1:
+        return float(Fraction(x[0], FX_ONE))
+    return float(Fraction(x[0], x[1])) if x[1] else float("nan")
 
 
 def eval_loglin(ll, carrier) -> float:
@@ -597,3 +597,416 @@ def close(a, b, tol=TOL) -> bool:
     if a != a or b != b:
         return a != a and b != b
     return abs(a - b) <= tol * (1 + abs(b))
+
+
+# ------------------------------------------------------------------------------------------------
+# the correspondence run shared by C03 and C08
+# ------------------------------------------------------------------------------------------------
+
+def case_summary(case: dict) -> dict:
+    """The case without bulky arrays (for disagreement reports)."""
+    return {k: v for k, v in case.items()}
+
+
+def collect_cases(ctx, n: int, max_periods: int, notes: dict) -> list:
+    """Generate cases and run the implementation on them; keep the well-conditioned stationary ones."""
+    out = []
+    tries = 0
+    while len(out) < n and tries < 6 * n + 20:
+        tries += 1
+        case = gen_case(ctx.rng, max_periods=max_periods)
+        try:
+            impl = run_impl(case)
+        except Exception as e:  # noqa
+            notes.setdefault("impl_raised", []).append({"case": case, "error": f"{type(e).__name__}: {e}"[:300]})
+            continue
+        if impl["num_unit_roots"] or impl["unknown_init"] is not None:
+            notes["skipped_unit_root"] = notes.get("skipped_unit_root", 0) + 1
+            continue
+        if not cond_ok(impl):
+            notes["skipped_ill_conditioned"] = notes.get("skipped_ill_conditioned", 0) + 1
+            continue
+        out.append((case, impl))
+    return out
+
+
+def likelihood_disagreements(case, impl, res) -> list[str]:
+    """Compare the likelihood pieces (evaluated from the model's symbolic log form) with info[...]."""
+    info, span = impl["info"], impl["span"]
+    bad = []
+    if not close(res["nll"], float(info["neg_log_likelihood"])):
+        bad.append(f"neg_log_likelihood model={res['nll']!r} impl={float(info['neg_log_likelihood'])!r}")
+    if not close(res["var_scale"], float(info["var_scale"])):
+        bad.append(f"var_scale model={res['var_scale']!r} impl={float(info['var_scale'])!r}")
+    contrib = _arr(info["neg_log_likelihood_contributions"], span)
+    if len(contrib) != len(res["contributions"]):
+        bad.append(f"contributions: {len(contrib)} values, model has {len(res['contributions'])}")
+    else:
+        for t, (a, b) in enumerate(zip(res["contributions"], contrib)):
+            if not close(a, float(b)):
+                bad.append(f"neg_log_likelihood_contributions@{t} model={a!r} impl={float(b)!r}")
+    ldf = _arr(info["log_det_F"], span)
+    for t, (d, b) in enumerate(zip(res["det_Fi"], ldf)):
+        a = -math.log(d) if d > 0 else float("nan")
+        if not close(a, float(b)):
+            bad.append(f"log_det_F@{t} model={a!r} impl={float(b)!r}")
+    return bad
+
+
+def passthrough_problems(case, impl) -> list[str]:
+    """Outputs that are plain copies of inputs (checked in Python, they involve no arithmetic):
+    measurement variables in update/smooth = the data; shock moments in the prediction step = the inputs;
+    exp() of the log-variables."""
+    out, span = impl["out"], impl["span"]
+    pin = period_inputs(case, impl)
+    model = case["model"]
+    bad = []
+    for box in ("update_med", "smooth_med"):
+        for j, nm in enumerate(impl["y_names"]):
+            col = _arr(out[box][log_name(case, nm)], span)
+            for t in range(case["nper"]):
+                ob = pin[t]["mask"][j]
+                if ob and not close(float(col[t]), pin[t]["y"][j], 1e-12):
+                    bad.append(f"{box}:{nm}@{t} = {col[t]!r}, data {pin[t]['y'][j]!r}")
+                if not ob and not np.isnan(col[t]):
+                    bad.append(f"{box}:{nm}@{t} = {col[t]!r} but nothing was observed")
+    for k, nm in enumerate(impl["u_names"]):
+        med = _arr(out["predict_med"][nm], span)
+        std = _arr(out["predict_std"][nm], span)
+        for t in range(case["nper"]):
+            if not close(float(med[t]), pin[t]["u0"][k], 1e-12):
+                bad.append(f"predict_med:{nm}@{t} = {med[t]!r}, input mean {pin[t]['u0'][k]!r}")
+            want = pin[t]["std_u"][k] * math.sqrt(float(impl["info"]["var_scale"]))
+            if not close(float(std[t]), want, 1e-9):
+                bad.append(f"predict_std:{nm}@{t} = {std[t]!r}, input std (rescaled) {want!r}")
+    for k, nm in enumerate(impl["w_names"]):
+        med = _arr(out["predict_med"][nm], span)
+        for t in range(case["nper"]):
+            if not close(float(med[t]), pin[t]["w0"][k], 1e-12):
+                bad.append(f"predict_med:{nm}@{t} = {med[t]!r}, input mean {pin[t]['w0'][k]!r}")
+    # exp of log variables
+    for nm, lg in zip(model["tnames"] + model["mnames"], model["tlog"] + model["mlog"]):
+        if not lg:
+            continue
+        for box in ("predict_med", "update_med", "smooth_med"):
+            if nm in out[box].keys() and f"log({nm})" in out[box].keys():
+                a = _arr(out[box][nm], span)
+                b = np.exp(_arr(out[box][f"log({nm})"], span))
+                ok = np.isclose(a, b, rtol=1e-12, atol=0, equal_nan=True)
+                if not ok.all():
+                    bad.append(f"{box}:{nm} is not exp(log({nm}))")
+    return bad
+
+
+def correspondence(ctx, n_cases: int, n_exact: int, max_periods: int, pid: str) -> CorrResult:
+    res = CorrResult()
+    notes: dict = {}
+    pairs = collect_cases(ctx, n_cases, max_periods, notes)
+    # a few tiny cases are evaluated on exact rationals as well
+    exact_pairs = []
+    tries = 0
+    while len(exact_pairs) < n_exact and tries < 200 * max(1, n_exact):
+        tries += 1
+        case = gen_case(ctx.rng, max_periods=2)
+        if len(case["model"]["tnames"]) > 1 or case["model"]["max_lag"] > 1:
+            continue
+        try:
+            impl = run_impl(case)
+        except Exception:  # noqa
+            continue
+        if impl["num_unit_roots"] or not cond_ok(impl):
+            continue
+        exact_pairs.append((case, impl))
+    jobs = []      # (carrier, [(case, impl, vals, labels)])
+    per = max(1, math.ceil(len(pairs) / core.NCPU))
+    prepared = []
+    dist = {"n_alpha": {}, "n_periods": {}, "n_measurement": {}, "deviation": 0, "rescale_variance": 0,
+            "time_varying_std": 0, "shock_means": 0, "log_variables": 0, "fully_missing_period": 0,
+            "no_observation_at_all": 0, "observed_cells": 0, "missing_cells": 0}
+    keys = set()
+    for case, impl in pairs + exact_pairs:
+        vals, labels, problems = expected_outputs(case, impl)
+        problems += passthrough_problems(case, impl)
+        for pr in problems:
+            res.disagreements.append(Disagreement(f"output layout: {pr}", case_summary(case), None, pr))
+        prepared.append((case, impl, vals, labels))
+    main = prepared[:len(pairs)]
+    for case, impl, vals, labels in main:
+        n = impl["Ta"].shape[0]
+        dist["n_alpha"][str(n)] = dist["n_alpha"].get(str(n), 0) + 1
+        dist["n_periods"][str(case["nper"])] = dist["n_periods"].get(str(case["nper"]), 0) + 1
+        m = len(case["model"]["mnames"])
+        dist["n_measurement"][str(m)] = dist["n_measurement"].get(str(m), 0) + 1
+        dist["deviation"] += bool(case["deviation"]); dist["rescale_variance"] += bool(case["rescale_variance"])
+        dist["time_varying_std"] += bool(case["tv_stds"]); dist["shock_means"] += bool(case["shock_means"])
+        dist["log_variables"] += bool(any(case["model"]["tlog"]) or any(case["model"]["mlog"]))
+        cols = list(zip(*case["mask"]))
+        dist["fully_missing_period"] += any(not any(c) for c in cols)
+        dist["no_observation_at_all"] += not any(any(c) for c in cols)
+        dist["observed_cells"] += sum(sum(c) for c in cols)
+        dist["missing_cells"] += sum(len(c) - sum(c) for c in cols)
+        if any(any(c) for c in cols) and case["nper"] >= 2:
+            keys.add(repr((case["model"]["source"], case["data"], case["mask"], case["deviation"])))
+    for i in range(0, len(main), per):
+        jobs.append(("CFX", main[i:i + per]))
+    for item in prepared[len(pairs):]:
+        jobs.append(("CBQ", [item]))
+    texts = []
+    for carrier, items in jobs:
+        t = [header(carrier)]
+        for k, (case, impl, vals, labels) in enumerate(items):
+            t.append(coq_case(k, case, impl, vals))
+        texts.append("\n".join(t))
+    results = core.run_cases(ctx, texts, prefix=f"kf_{pid}", timeout=1500)
+    res.shards = len(texts)
+    n_values = 0
+    for (carrier, items), (ok, out) in zip(jobs, results):
+        if not ok:
+            res.disagreements.append(Disagreement("cases shard does not evaluate", None, out[-800:], None))
+            continue
+        bodies = core.parse_eval_lists(out)
+        if len(bodies) != len(items):
+            res.disagreements.append(Disagreement("cases shard: unparsable output", None, out[-800:], None))
+            continue
+        for (case, impl, vals, labels), body in zip(items, bodies):
+            try:
+                r = parse_result(body, carrier)
+            except Exception as e:  # noqa
+                res.disagreements.append(Disagreement("cases shard: unparsable result", case_summary(case),
+                                                      body[:600], f"{type(e).__name__}: {e}"))
+                continue
+            n_values += len(vals) + 3 + 2 * case["nper"]
+            for i in r["failing"]:
+                lab = labels[i] if i < len(labels) else f"length mismatch (model has {i - 1000000 - 0} values, implementation {len(vals)})"
+                impl_v = float(vals[i]) if i < len(vals) and vals[i] is not None else None
+                res.disagreements.append(Disagreement(f"{lab} [{carrier}]", case_summary(case),
+                                                      "model value differs by more than 1e-7*(1+|x|)", impl_v))
+            if not r["init_med_ok"]:
+                res.disagreements.append(Disagreement("initial mean is not (I-Ta)^-1 Ka", case_summary(case), None,
+                                                      impl["init_med"].tolist()))
+            if not r["init_mse_ok"]:
+                res.disagreements.append(Disagreement("initial MSE does not solve the Lyapunov equation",
+                                                      case_summary(case), None, impl["init_mse"].tolist()))
+            for msg in likelihood_disagreements(case, impl, r):
+                res.disagreements.append(Disagreement(f"likelihood: {msg} [{carrier}]", case_summary(case), None, msg))
+    for item in notes.get("impl_raised", []):
+        res.disagreements.append(Disagreement("kalman_filter raised", item["case"], None, item["error"]))
+    res.evaluations = len(prepared)
+    res.distinct_nontrivial = len(keys)
+    dist["values_compared"] = n_values
+    dist["exact_rational_cases"] = len(exact_pairs)
+    dist["skipped_ill_conditioned"] = notes.get("skipped_ill_conditioned", 0)
+    dist["skipped_unit_root"] = notes.get("skipped_unit_root", 0)
+    res.distribution = dist
+    res.rule = ("one random stationary model built from source text through Simultaneous.from_string (1-4 transition "
+                "variables, lags up to 2, optional lag identity and shock-free equation, log variables, 1-3 measurement "
+                "equations mostly with own measurement shocks), random std values (scalar and time-varying std_ series with "
+                "gaps), optional shock means, random data with a random missing-data mask (leading/trailing gaps, fully "
+                "missing periods, nothing/everything observed), deviation and rescale_variance flags; "
+                "Simultaneous.kalman_filter(..., return_info=True) is compared value by value (predict/update/smooth "
+                "medians and stds of the transition variables, smoothed/updated shocks, predicted observables, prediction "
+                "errors, prediction MSE matrices, likelihood, contributions, log det F, variance scale) with the Coq model "
+                "evaluated on the same dyadic inputs (2^-384 fixed point; a few tiny cases on exact rationals), tolerance "
+                "1e-7*(1+|x|); non-trivial = at least two periods and at least one observation; distinct = distinct "
+                "(model source, data, mask, deviation)")
+    res.samples = [{"source": c["model"]["source"], "nper": c["nper"], "mask": c["mask"], "deviation": c["deviation"],
+                    "rescale_variance": c["rescale_variance"],
+                    "neg_log_likelihood": float(i["info"]["neg_log_likelihood"])} for c, i in pairs[:3]]
+    res.notes = [f"cases per shard: {per}"]
+    return res
+
+
+# ------------------------------------------------------------------------------------------------
+# falsifiers: the properties stated directly on the public API
+# ------------------------------------------------------------------------------------------------
+
+def _lv(case, nm, v):
+    """Value of a variable in the space its equation is written in (logs of log-variables)."""
+    model = case["model"]
+    lg = dict(zip(model["tnames"] + model["mnames"], model["tlog"] + model["mlog"]))
+    return np.log(v) if lg[nm] else v
+
+
+def _steady_lv(case, nm):
+    return _lv(case, nm, case["model"]["steady"][nm])
+
+
+def equation_residuals(case: dict, box, span, deviation: bool):
+    """Residuals of the model's own equations (as generated, see gen_model) on a databox of results.
+    Returns (measurement residuals {(name, t): r} on observed cells, transition residuals {(name, t): r})."""
+    model = case["model"]
+    P = model["params"]
+    nper = case["nper"]
+    X = {nm: np.asarray(box[nm].get_data(span), dtype=float).reshape(-1)
+         for nm in model["tnames"] + model["mnames"] + model["shocks"] + model["mshocks"]}
+
+    def dev(nm, t):
+        """variable minus steady state, in equation space"""
+        v = X[nm][t]
+        if deviation:
+            return _lv(case, nm, v)                 # deviations: x - ss, or log(x/ss) = log of the ratio
+        return _lv(case, nm, v) - _steady_lv(case, nm)
+    meas, trans = {}, {}
+    for j, nm in enumerate(model["mnames"]):
+        for t in range(nper):
+            if not case["mask"][j][t]:
+                continue
+            rhs = 0.0
+            for i, tn in enumerate(model["tnames"]):
+                d = P.get(f"d{j+1}_{i+1}")
+                if d is not None:
+                    rhs += d * dev(tn, t)
+            if f"w{j+1}" in model["mshocks"]:
+                rhs += X[f"w{j+1}"][t]
+            meas[(nm, t)] = dev(nm, t) - rhs
+    k = len([n for n in model["tnames"] if n != "lx"])
+    for i in range(k):
+        nm = model["tnames"][i]
+        for t in range(nper):
+            rhs = 0.0
+            ok = True
+            for lag in (1, 2):
+                for j in range(k):
+                    a = P.get(f"a{lag}_{i+1}{j+1}")
+                    if a is None:
+                        continue
+                    if t - lag < 0:
+                        ok = False
+                        break
+                    rhs += a * dev(model["tnames"][j], t - lag)
+            if not ok:
+                continue
+            if f"e{i+1}" in model["shocks"]:
+                rhs += X[f"e{i+1}"][t]
+            trans[(nm, t)] = dev(nm, t) - rhs
+    if "lx" in model["tnames"]:
+        src = None
+        for line in model["source"].splitlines():
+            m = re.match(r"\s*lx = (\w+)\{-1\};", line)
+            if m:
+                src = m.group(1)
+        for t in range(1, nper):
+            if deviation or True:
+                trans[("lx", t)] = X["lx"][t] - X[src][t - 1]
+    return meas, trans
+
+
+def falsify_c08_case(case: dict, tol=1e-7) -> list[Failure]:
+    """C08 on one case through the public API only."""
+    import irispie as ir
+    fails: list[Failure] = []
+    model = case["model"]
+    m = build_model(model)
+    db, span = input_databox(m, case)
+    opts = kf_options(case)
+    key_in = case
+    repro = "harness.kalman_common.falsify_c08_case(case)  # case = the 'input' of this record"
+    try:
+        out, info = m.kalman_filter(db, span, return_info=True, **opts)
+    except Exception as e:  # noqa
+        return [Failure("kalman_filter:raises", f"kalman_filter raises {type(e).__name__}: {e}", key_in, repr(e)[:300],
+                        "filter output", repro)]
+    dev = case["deviation"]
+    if not cond_ok({"out": out}):
+        return []                      # near-singular prediction MSE: outside the tolerance regime
+    for boxname in ("smooth_med", "update_med"):
+        box = out[boxname]
+        # 1. data reproduced where observed
+        for j, nm in enumerate(model["mnames"]):
+            got = _arr(box[nm], span)
+            want = _arr(db[nm], span)
+            for t in range(case["nper"]):
+                if case["mask"][j][t] and not close(float(got[t]), float(want[t]), tol):
+                    fails.append(Failure(f"{boxname}:data-not-reproduced", f"{boxname}[{nm}] differs from the observation",
+                                         key_in, {"name": nm, "t": t, "got": float(got[t])}, float(want[t]), repro))
+        # 2. measurement equations (both boxes), transition equations (smoothed only)
+        try:
+            meas, trans = equation_residuals(case, box, span, dev)
+        except Exception as e:  # noqa
+            fails.append(Failure(f"{boxname}:unreadable", f"{boxname} cannot be read: {type(e).__name__}: {e}", key_in))
+            continue
+        worst = max(meas.items(), key=lambda kv: abs(kv[1]) if kv[1] == kv[1] else 1e300, default=None)
+        if worst and not (abs(worst[1]) <= tol):
+            fails.append(Failure(f"{boxname}:measurement-equation",
+                                 f"measurement equation of {worst[0][0]} does not hold on {boxname} in period {worst[0][1]}",
+                                 key_in, {"residual": float(worst[1])}, 0.0, repro))
+        if boxname == "smooth_med":
+            worst = max(trans.items(), key=lambda kv: abs(kv[1]) if kv[1] == kv[1] else 1e300, default=None)
+            if worst and not (abs(worst[1]) <= tol):
+                fails.append(Failure("smooth_med:transition-equation",
+                                     f"transition equation of {worst[0][0]} does not hold on smooth_med in period {worst[0][1]}",
+                                     key_in, {"residual": float(worst[1])}, 0.0, repro))
+    # 3. re-simulation from the smoothed initial condition with the smoothed shocks
+    lag = model["max_lag"]
+    if case["nper"] > lag:
+        sm = out["smooth_med"]
+        sim_db = ir.Databox()
+        for nm in model["tnames"] + model["mnames"] + model["shocks"] + model["mshocks"]:
+            sim_db[nm] = sm[nm].copy()
+        for nm in model["mnames"]:
+            # measurement variables are outputs of the simulation; drop them from the input
+            del sim_db[nm]
+        sim_span = (span.start + lag) >> span.end
+        try:
+            sim = m.simulate(sim_db, sim_span, deviation=dev)
+            if isinstance(sim, tuple):
+                sim = sim[0]
+            for nm in model["tnames"]:
+                got = _arr(sim[nm], sim_span)
+                want = _arr(sm[nm], sim_span)
+                bad = [t for t in range(len(got)) if not close(float(got[t]), float(want[t]), 10 * tol)]
+                if bad:
+                    fails.append(Failure("resimulation:transition",
+                                         f"simulating from the smoothed initial condition with the smoothed shocks does not "
+                                         f"reproduce smooth_med[{nm}]", key_in,
+                                         {"t": bad[0] + lag, "got": float(got[bad[0]])}, float(want[bad[0]]), repro))
+                    break
+            for j, nm in enumerate(model["mnames"]):
+                got = _arr(sim[nm], sim_span)
+                want = _arr(sm[nm], sim_span)
+                bad = [t for t in range(len(got)) if case["mask"][j][t + lag]
+                       and not close(float(got[t]), float(want[t]), 10 * tol)]
+                if bad:
+                    fails.append(Failure("resimulation:measurement",
+                                         f"the re-simulated {nm} differs from the observed data", key_in,
+                                         {"t": bad[0] + lag, "got": float(got[bad[0]])}, float(want[bad[0]]), repro))
+                    break
+        except Exception as e:  # noqa
+            fails.append(Failure("resimulation:raises", f"simulate on the smoothed databox raises {type(e).__name__}: {e}",
+                                 key_in, repr(e)[:300], "a simulation", repro))
+    # 4. deviation mode on (data - steady) = level results - steady
+    other = dict(case)
+    other["deviation"] = not dev
+    try:
+        db2, _ = input_databox(m, other)
+        out2, info2 = m.kalman_filter(db2, span, return_info=True, **kf_options(other))
+        lev, dv = (out, out2) if not dev else (out2, out)
+        linfo, dinfo = (info, info2) if not dev else (info2, info)
+        lg = dict(zip(model["tnames"] + model["mnames"], model["tlog"] + model["mlog"]))
+        for boxname in ("predict_med", "update_med", "smooth_med"):
+            for nm in model["tnames"] + model["shocks"] + model["mshocks"]:
+                a = _arr(lev[boxname][nm], span)
+                b = _arr(dv[boxname][nm], span)
+                st = model["steady"].get(nm, 0.0)
+                want = a / st if lg.get(nm, False) else a - st
+                bad = [t for t in range(len(a)) if not close(float(b[t]), float(want[t]), tol)]
+                if bad:
+                    fails.append(Failure(f"deviation:{boxname}",
+                                         f"deviation-mode {boxname}[{nm}] is not the level-mode result minus steady state",
+                                         key_in, {"t": bad[0], "deviation": float(b[bad[0]]), "level": float(a[bad[0]])},
+                                         float(want[bad[0]]), repro))
+                    break
+        for boxname in ("predict_std", "update_std", "smooth_std"):
+            for nm in model["tnames"]:
+                a = _arr(lev[boxname][log_name(case, nm)], span)
+                b = _arr(dv[boxname][log_name(case, nm)], span)
+                if not all(close(float(x), float(y), tol) for x, y in zip(b, a)):
+                    fails.append(Failure(f"deviation:{boxname}", f"{boxname}[{nm}] differs between deviation and level mode",
+                                         key_in, b.tolist(), a.tolist(), repro))
+                    break
+        if not close(float(dinfo["neg_log_likelihood"]), float(linfo["neg_log_likelihood"]), tol):
+            fails.append(Failure("deviation:likelihood", "neg_log_likelihood differs between deviation and level mode",
+                                 key_in, float(dinfo["neg_log_likelihood"]), float(linfo["neg_log_likelihood"]), repro))
+    except Exception as e:  # noqa
+        fails.append(Failure("deviation:raises", f"the other mode raises {type(e).__name__}: {e}", key_in, repr(e)[:300]))
+    return fails
